@@ -316,7 +316,14 @@ func (x *Exec) loadObj(st *State, kind string, root types.Type, ref, idx Term, p
 	v := buildValue(vt, func(l Leaf) Term {
 		p := join(prefix, l.Path)
 		hk, arr := x.heapLeaf(st, kind, root, p, l.Sort)
-		if l.Sort == SInt {
+		if l.Sort == SInt && (l.Sub == "off" || l.Sub == "len" || l.Sub == "cap" || l.Sub == "ptr" || l.Sub == "tag" || l.Sub == "data") {
+			// slice headers and interface words are never negative
+			if kind == "A" {
+				x.unsignedFam[sanitize(hk)] = 2
+			} else {
+				x.unsignedFam[sanitize(hk)] = 1
+			}
+		} else if l.Sort == SInt {
 			if lo, _, ok := intRange(l.Typ); ok && lo == "0" {
 				if _, opq := isOpaque(l.Typ); !opq {
 					if kind == "A" {
